@@ -88,7 +88,7 @@ def stream_expected(ctx, rule):
             ok = out["end"] == "return" and len(out["copy"]) == 1 and any(v == "Ok" for v, sh in out["ret"])
             if ok:
                 c0 = out["copy"][0]
-                ENUM0 = "some(Iterator::next(var:Enumerate<Iter<u8>>)).0"
+                ENUM0 = "try(Iterator::next(var:Enumerate<Iter<u8>>)).0"
                 ok = q.wild("slice::copy_from_slice(arg2[RangeTo{end:Sub(*Read::read(*,%s)}],*[Range{start:%s,end:*Read::read(*}])" % (ENUM0, ENUM0), c0)
                 ok = ok and any(q.wild("Result::Ok{0:Sub(*Read::read(*,%s)}" % ENUM0, sh) for v, sh in out["ret"])
             ctx.check(ok, rule, fn, "t:" + key, "past the header the remainder local_buf[offset..read] (read - offset bytes, starting at the current byte) is emitted and Ok(read - offset) returned", detail=str(out)[:500])
@@ -138,7 +138,7 @@ def slice_expected(ctx, rule):
         return None
     table, roles = res
     fn = SLICE
-    IDX = "some(Iterator::next(var:Enumerate<Iter<u8>>)).0"
+    IDX = "try(Iterator::next(var:Enumerate<Iter<u8>>)).0"
     for (st, c), out in sorted(table.items()):
         key = "%d/%s" % (st, c)
         if st == 0 and c in ("junk", "other"):
@@ -277,6 +277,6 @@ def convergence(ctx, rule):
         for kind, dec in (("from_reader", "decoder::decode"), ("from_slice", "decoder::decode_slice")):
             b = ctx.body("%s::%s" % (ty, kind))
             calls = [q.nice(t.get("callee")) for bi, t in b.calls() if t.get("resolved_local")]
-            oks = [q.shape(b.expr_of_rvalue(s2["rv"])) for bi, si, s2, it in b.locations() if not it and s2["k"] == "assign" and s2["place"]["l"] == 0 and s2["rv"]["k"] == "agg" and s2["rv"].get("variant") == "Ok"]
+            oks = [sh for sh, _, _ in q.def_shapes(b, 0, {}) if sh.startswith("Result::Ok{")]
             ok = calls == [q.nice(dec)] and len(oks) == 1 and ("%s(try(%s(arg1)))" % (variant.lower(), q.nice(dec))) in oks[0]
             ctx.check(ok, rule, b.path, "variant:%s" % variant, "%s::%s decodes with %s and accepts exactly the %s variant" % (ty.split("::")[-1], kind, q.nice(dec), variant), detail=str(oks))
